@@ -257,8 +257,13 @@ def run_check(prop, tier="quick", replay=None):
         "wall_s": round(time.time() - t0, 2),
         "violations": len(new_violations),
     }
-    os.makedirs(os.path.join(VERIF, "evidence"), exist_ok=True)
-    with open(os.path.join(VERIF, "evidence", f"{prop}.json"), "w") as fh:
+    # evidence describes /repo itself: runs against a scratch tree (WILD_REPO) or another configuration (VERIF_CONFIG) are development
+    # aids and must not overwrite it
+    evdir = os.path.join(VERIF, "evidence")
+    if os.path.realpath(factsmod.REPO) != "/repo" or base_config != "default":
+        evdir = os.path.join(factsmod.CACHE, "scratch-evidence")
+    os.makedirs(evdir, exist_ok=True)
+    with open(os.path.join(evdir, f"{prop}.json"), "w") as fh:
         json.dump(ev, fh, indent=1)
 
     print(f"{prop} [{tier}] obligations={len(rep.obligations)} discharged={discharged} "
